@@ -363,3 +363,12 @@ From JP.gen Require IndentGen.
 Theorem C15_go_indent_is_model : forall indent bs, IndentGen.indent_gen [] indent bs = Scan.indent_go indent bs.
 Proof. exact IndentTie.indent_gen_is_model. Qed.
 Print Assumptions C15_go_indent_is_model.
+
+(* ---- the string decoder, re-translated from decode.go on every run, is the model's unquote on every accepted
+   body and never panics (UnquoteTie.v; see Properties/C17.v) ---- *)
+From JP Require UnquoteTie.
+From JP.gen Require UnquoteGen.
+Theorem C15_go_string_decoder_is_unquote : forall body, sbody body ->
+  UnquoteGen.unquote_full_gen ([x22] ++ body ++ [x22]) = UnquoteGen.UOk (unquote body).
+Proof. exact UnquoteTie.unquote_full_gen_is_unquote. Qed.
+Print Assumptions C15_go_string_decoder_is_unquote.
